@@ -335,6 +335,10 @@ func TestCheck(t *testing.T) {
 		if json.Unmarshal(raw, &probe) == nil && probe.Conflict {
 			return runConflict(r, &probe)
 		}
+		var ds DepSibCase
+		if json.Unmarshal(raw, &ds) == nil && ds.Chain != nil && len(ds.After) > 0 {
+			return runDepositSiblings(r, &ds)
+		}
 		var cc sim.ChainCase
 		if err := json.Unmarshal(raw, &cc); err != nil {
 			return report.Failf("harness", "bad case: %v", err)
@@ -366,6 +370,13 @@ func TestCheck(t *testing.T) {
 		f := runConflict(r, c)
 		r.ClearInflight()
 		return c, f
+	}) {
+		return
+	}
+	r.Mandatory("deposit-siblings:trunk-deposits-then-diverging-siblings")
+	if !r.Search(t, "deposit-siblings", 102, r.N(240, 4000), func(rt *rapid.T) (any, *report.Failure) {
+		c := genDepositSiblings(rt)
+		return c, runDepositSiblings(r, c)
 	}) {
 		return
 	}
